@@ -97,7 +97,7 @@ def run(tier):
         if c.root is not None:
             kw["schema"] = eval(con_src(c.root), {"schema": schema_})
         info = dict(c.to_json(), all_refs=c.opts["all_refs"])
-        docs = {}
+        docs, names = {}, {}
         for side, fn in (("deserialization", deserialization_schema), ("serialization", serialization_schema)):
             for vname in VERSIONS:
                 V = getattr(JsonSchemaVersion, vname)
@@ -159,12 +159,21 @@ def run(tier):
                                         dict(info, schema=doc, definitions=apart, version=vname))
                     except Exception as e:
                         R.violation(f"definitions_schema({vname}) raised {type(e).__name__}: {e}", info)
+                # the extraction rule (which named types get a definition) is given by all_refs, not by the dialect
+                names.setdefault(side, {})[vname] = sorted(defs)
                 refs = all_refs_in(s) + [r for d in defs.values() for r in all_refs_in(d)]
                 for path, ref in refs:
                     if not ref.startswith(V.ref_prefix) or ref[len(V.ref_prefix):] not in defs:
                         R.violation(f"{side}_schema({vname}): $ref {ref!r} at {path} resolves to no emitted definition",
                                     dict(info, schema=doc, version=vname))
                         break
+        for side, by_version in names.items():
+            ref_names = by_version.get("DRAFT_2020_12")
+            for vname, got in by_version.items():
+                if ref_names is not None and got != ref_names:
+                    R.violation(f"{side}: with all_refs={c.opts['all_refs']} the definitions extracted under {vname} are {got}, under "
+                                f"DRAFT_2020_12 {ref_names} (the explicit all_refs decides, not the version)", dict(info, version=vname))
+                    break
         # 3. extraction rule and shape: the model of refs.py + schema.py (deserialization, 2020-12)
         doc = docs.get(("deserialization", "DRAFT_2020_12"))
         if doc is not None:
@@ -183,6 +192,8 @@ def run(tier):
     P.hooks.append(hook)
     P.run()
     collisions(R, jsonschema)
+    method_conversion_refs_probe(R, jsonschema)
+    union_type_list_probe(R, jsonschema)
     from harness import probes
     probes.discriminator_schema_probe(R, {'refs'})
     T1 = "univ * dopts * list nat * bool * option constraints * ty * (js * defs)"
@@ -322,6 +333,131 @@ def multi_entry_definitions(R):
         R.violation(f"{type(e).__name__} in the multi-entry definitions probe: {e}", info)
     finally:
         pyrun.drop_module(mod)
+
+
+METHOD_CONV_SRC = '''
+from dataclasses import dataclass, field
+from typing import List, Optional
+from apischema import serialized
+
+@dataclass
+class Tag:
+    v: int
+
+class Handle:                 # not serializable by itself
+    def __init__(self, v): self.v = v
+
+def handle_to_tag(h: Handle) -> Tag:
+    return Tag(h.v)
+
+@dataclass
+class Once:
+    @serialized(conversion=handle_to_tag)
+    def other(self) -> Handle:
+        return Handle(0)
+
+@dataclass
+class Shared:
+    tag: Tag = field(default_factory=lambda: Tag(1))
+    @serialized(conversion=handle_to_tag)
+    def other(self) -> Handle:
+        return Handle(0)
+
+@dataclass
+class Shared2:
+    @serialized(conversion=handle_to_tag)
+    def one(self) -> Handle:
+        return Handle(1)
+    @serialized(conversion=handle_to_tag)
+    def two(self) -> Handle:
+        return Handle(2)
+
+class NodeHandle:
+    def __init__(self, n): self.n = n
+
+def handle_to_node(h: NodeHandle) -> Optional["Node2"]:
+    return h.n
+
+@dataclass
+class Node2:
+    value: int = 0
+    @serialized(conversion=handle_to_node)
+    def parent(self) -> NodeHandle:
+        return NodeHandle(None)
+'''
+
+
+def union_type_list_probe(R, jsonschema):
+    """unions whose alternatives have the same JSON type and no other keyword: the merged "type" list names it once (a list with
+    a repeated name is invalid against every meta-schema)"""
+    from typing import Any, Dict, List, Optional, Sequence, Tuple, Union
+    from apischema.json_schema import deserialization_schema, serialization_schema, JsonSchemaVersion
+    types = [Union[List[Any], int, List[Union[None, bool, Any]], None], Union[List[Any], Sequence[Any]],
+             Union[Dict[str, Any], int, Dict[str, Any], str], Optional[Union[List[Any], Tuple[Any, ...]]],
+             List[Union[List[Any], List[Any], None]], Dict[str, Union[int, List[Any], Sequence[Any]]]]
+    for T in types:
+        for fn in (deserialization_schema, serialization_schema):
+            for vname, cls in (("DRAFT_2020_12", jsonschema.Draft202012Validator), ("DRAFT_2019_09", jsonschema.Draft201909Validator),
+                               ("DRAFT_7", jsonschema.Draft7Validator)):
+                R.count("union_type_list_probe")
+                try:
+                    doc = json.loads(json.dumps(fn(T, version=getattr(JsonSchemaVersion, vname))))
+                    cls.check_schema(doc)
+                except Exception as e:   # noqa
+                    R.violation(f"{fn.__name__}({T}, {vname}) is not valid against its meta-schema: {str(e)[:200]}",
+                                dict(type=str(T), version=vname))
+                    break
+
+
+def method_conversion_refs_probe(R, jsonschema):
+    """the type reached through the conversion of a serialized method is the one the schema shows: it is counted (shared ->
+    extracted once, used once -> inline) and followed (recursive only through it -> a reference, generation terminates)"""
+    import apischema.cache
+    from apischema import serialize
+    from apischema.json_schema import serialization_schema, definitions_schema
+    apischema.cache.reset()
+    try:
+        mod = pyrun.exec_module(METHOD_CONV_SRC)
+    except Exception as e:   # noqa
+        R.broken.append(f"method_conversion_refs_probe: module not accepted: {type(e).__name__}: {e}")
+        return
+    info = dict(source=METHOD_CONV_SRC)
+    try:
+        for cls, all_refs, want in ((mod.Once, False, []), (mod.Once, True, ["Once", "Tag"]), (mod.Shared, False, ["Tag"]),
+                                    (mod.Shared2, False, ["Tag"]), (mod.Shared, True, ["Shared", "Tag"]),
+                                    (mod.Node2, False, ["Node2"]), (mod.Node2, True, ["Node2"])):
+            R.count("method_conversion_refs_probe")
+            what = f"serialization_schema({cls.__name__}, all_refs={all_refs})"
+            try:
+                doc = json.loads(json.dumps(serialization_schema(cls, all_refs=all_refs)))
+            except RecursionError:
+                R.violation(f"{what} does not terminate (RecursionError): the class is recursive through the conversion of a "
+                            "serialized method", info)
+                continue
+            except Exception as e:   # noqa
+                R.violation(f"{what} raised {type(e).__name__}: {e}", info)
+                continue
+            s_, defs = split_defs(doc)
+            if sorted(defs) != want:
+                R.violation(f"{what} extracts {sorted(defs)}, expected {want} (a named type is extracted when all_refs, or when used "
+                            "more than once / recursive, uses through the conversion of a serialized method included)", dict(info, schema=doc))
+                continue
+            for path, ref in all_refs_in(s_) + [r for d in defs.values() for r in all_refs_in(d)]:
+                if not ref.startswith("#/$defs/") or ref[len("#/$defs/"):] not in defs:
+                    R.violation(f"{what}: $ref {ref!r} at {path} resolves to no emitted definition", dict(info, schema=doc))
+            try:
+                jsonschema.Draft202012Validator.check_schema(doc)
+                apart = json.loads(json.dumps(definitions_schema(serialization=[cls], all_refs=all_refs)))
+                if apart != defs:
+                    R.violation(f"definitions_schema differs from the inline definitions of {what}", dict(info, schema=doc, definitions=apart))
+                out = serialize(cls, cls())
+                if not jsonschema.Draft202012Validator(doc).is_valid(out):
+                    R.violation(f"{what} rejects the serialized value {out!r}", dict(info, schema=doc))
+            except Exception as e:   # noqa
+                R.violation(f"{what}: {type(e).__name__}: {e}", dict(info, schema=doc))
+    finally:
+        pyrun.drop_module(mod)
+        apischema.cache.reset()
 
 
 def replay(data):
